@@ -58,16 +58,18 @@ func with(r *annotations.HttpRule, adds ...*annotations.HttpRule) *annotations.H
 // them requested after every step. Every service also has bindings below the
 // two variable nodes of /sv ({a} and {a=sh/*}) that all services share, so
 // that dropping one provider exercises the pruning of nodes others still use;
+// B.Get's literal /ov/lit/one lies on A.Get's /ov/{a}/one: the literal wins
+// while B has a provider, the variable binding takes over when it has none;
 // A.Put owns an any-verb (custom kind "*") binding on /any/things, a node
 // whose only other content are B's and T's bindings below it.
 func files() []*vschema.File {
 	return []*vschema.File{
 		{Path: "vf/rsa.proto", Pkg: "vf.rs", Messages: aReq(1), Services: []vschema.Service{{Name: "A", Methods: []vschema.Method{
-			{Name: "Get", In: "vf.rs.AReq", Out: "vf.Rsp", Rule: with(get("/rs/a/{a}"), get("/rs/alt/{a}/{n}"), post("/rs/a", "*"), get("/rs/x/{a}"), get("/rs/ab/{a}/{b}"), get("/sv/{a}/sa"), get("/sv/{a=sh/*}/pa"))},
+			{Name: "Get", In: "vf.rs.AReq", Out: "vf.Rsp", Rule: with(get("/rs/a/{a}"), get("/rs/alt/{a}/{n}"), post("/rs/a", "*"), get("/rs/x/{a}"), get("/rs/ab/{a}/{b}"), get("/sv/{a}/sa"), get("/sv/{a=sh/*}/pa"), get("/ov/{a}/one"))},
 			{Name: "Put", In: "vf.rs.AReq", Out: "vf.Rsp", Rule: with(post("/rs/put", "*"), anyVerb("/any/things", "*"))},
 		}}}},
 		{Path: "vf/rsb.proto", Pkg: "vf.rs", Services: []vschema.Service{{Name: "B", Methods: []vschema.Method{
-			{Name: "Get", In: "vf.Req", Out: "vf.Rsp", Rule: with(get("/rs/b/{a}"), get("/rs/b2/{a}/{n}"), post("/rs/b", "*"), get("/sv/{a}/sb"), get("/sv/{a=sh/*}/pb"), get("/any/things/{a}"))},
+			{Name: "Get", In: "vf.Req", Out: "vf.Rsp", Rule: with(get("/rs/b/{a}"), get("/rs/b2/{a}/{n}"), post("/rs/b", "*"), get("/sv/{a}/sb"), get("/sv/{a=sh/*}/pb"), get("/any/things/{a}"), get("/ov/lit/one"))},
 		}}}},
 		{Path: "vf/rsc.proto", Pkg: "vf.rs", Services: []vschema.Service{{Name: "C", Methods: []vschema.Method{
 			{Name: "Get", In: "vf.Req", Out: "vf.Rsp", Rule: with(get("/rs/c/{a}"), get("/rs/c2/{a}/{n}"), get("/rs/x/{a}"), get("/sv/{a}/sc"), get("/sv/{a=sh/*}/pc"))},
@@ -94,7 +96,7 @@ func aReq(rev int) []*descriptorpb.DescriptorProto {
 // (version skew between replicas): Get announces one more binding.
 func filesV2() *vschema.File {
 	return &vschema.File{Path: "vf/rsa.proto", Pkg: "vf.rs", Messages: aReq(2), Services: []vschema.Service{{Name: "A", Methods: []vschema.Method{
-		{Name: "Get", In: "vf.rs.AReq", Out: "vf.Rsp", Rule: with(get("/rs/a/{a}"), get("/rs/alt/{a}/{n}"), post("/rs/a", "*"), get("/rs/x/{a}"), get("/rs/ab/{a}/{b}"), get("/rs/v2/{a}"), get("/sv/{a}/sa"), get("/sv/{a=sh/*}/pa"))},
+		{Name: "Get", In: "vf.rs.AReq", Out: "vf.Rsp", Rule: with(get("/rs/a/{a}"), get("/rs/alt/{a}/{n}"), post("/rs/a", "*"), get("/rs/x/{a}"), get("/rs/ab/{a}/{b}"), get("/rs/v2/{a}"), get("/sv/{a}/sa"), get("/sv/{a=sh/*}/pa"), get("/ov/{a}/one"))},
 		{Name: "Put", In: "vf.rs.AReq", Out: "vf.Rsp", Rule: with(post("/rs/put", "*"), anyVerb("/any/things", "*"))},
 		// a method only the newer revision has
 		{Name: "Extra", In: "vf.rs.AReq", Out: "vf.Rsp", Rule: get("/rs/extra/{a}")},
